@@ -271,6 +271,16 @@ for _b in _BASES:
     DEGENERATE.append(('base:' + _b, _PRELUDE + 'class C(%s):\n    own = 1\n    def m(self):\n        self.v = 1\n        self.v\n        self.km\nC().m\nC.own\nC().kv\nclass D(C): pass\nD().m().v\n' % _b))
 
 
+# long runs of statements: every region costs stack depth when the name tables are built (known finding F-deepchain),
+# deeply nested for loops: every level multiplies the work of resolving the back edges (known finding F-nestedloops)
+DEGENERATE.append(('long-chain-try-100', 'def f():\n' + ''.join('    try:\n        a%d = 1\n    except E:\n        pass\n' % i for i in range(100)) + '    return a0\n'))
+DEGENERATE.append(('long-chain-if-300', ''.join('if c%d:\n    v = %d\n' % (i, i) for i in range(300)) + 'v\n'))
+DEGENERATE.append(('long-chain-elif-400', 'if c:\n    v = 0\n' + ''.join('elif c%d:\n    v = %d\n' % (i, i) for i in range(400)) + 'v\n'))
+DEGENERATE.append(('nested-for-9', 'x = 0\n' + ''.join('    ' * i + 'for i%d in r:\n' % i for i in range(9)) + '    ' * 9 + 'x = x + 1\nx\n'))
+DEGENERATE.append(('nested-for-5', 'x = 0\n' + ''.join('    ' * i + 'for i%d in r:\n' % i for i in range(5)) + '    ' * 5 + 'x = x + 1\nx\n'))
+DEGENERATE.append(('nested-while-6', 'x = 0\n' + ''.join('    ' * i + 'while x < %d:\n' % i for i in range(6)) + '    ' * 6 + 'x = x + 1\nx\n'))
+
+
 CYCLIC_PROJECTS = {
     'star-import-cycle': {'pa.py': 'from pb import *\nva = 1\n', 'pb.py': 'from pa import *\nvb = 1\n',
                           'x': 'from pa import *\nva\nvb\nimport pa\npa.vb\n'},
@@ -352,9 +362,18 @@ def unit_degenerate(item):
     cursors = list(all_cursors(text))
     if len(cursors) > 600:
         cursors = cursors[::max(1, len(cursors) // 600)]
+    coarse = None
+    if label.startswith('long-chain-'):
+        cursors, coarse = cursors[-1:], ('RecursionError', 'long-statement-chain')
+    elif label.startswith(('nested-for-', 'nested-while-')) and int(label.split('-')[-1]) >= 8:
+        cursors, coarse = [], ('no-termination', 'deeply-nested-loops')      # lint only: every call costs a full watchdog period
     for sig, what, wit in run_text(P, text, nc.FILE, 'degenerate text ' + label, part, cursors, {'kind': 'text', 'text': text, 'fn': nc.FILE, 'root': nc.PROJECT_DIR}):
+        if coarse and coarse[0] in sig:
+            # one cause, many places where it surfaces: the signature names the cause
+            sig = '%s:%s:%s' % (sig.split(':')[0], coarse[0], coarse[1])
+            wit = dict(wit, coarse=list(coarse))
         part.violation(sig, what, wit)
-    for tl, t, cur in (typing_states(text) if len(text) < 400 else ()):
+    for tl, t, cur in (typing_states(text) if len(text) < 400 and not coarse else ()):
         for sig, what, wit in run_text(P, t, nc.FILE, 'degenerate %s / %s' % (label, tl), part, cur, {'kind': 'text', 'text': t, 'fn': nc.FILE, 'root': nc.PROJECT_DIR}):
             part.violation(sig, what, wit)
     part.outcome(('degenerate', label))
@@ -493,7 +512,10 @@ def replay(w):
     if w['kind'] == 'text':
         P = Project([w['root']])
         cursors = [tuple(w['pos'])] if w.get('pos') else []
-        return [(s, wh) for s, wh, _ in run_text(P, w['text'], w['fn'], 'replay', part, cursors, {})]
+        res = [(s, wh) for s, wh, _ in run_text(P, w['text'], w['fn'], 'replay', part, cursors, {})]
+        if w.get('coarse'):
+            res = [('%s:%s:%s' % (s.split(':')[0], w['coarse'][0], w['coarse'][1]) if w['coarse'][0] in s else s, wh) for s, wh in res]
+        return res
     if w['kind'] == 'nofile':
         return [(v['sig'], v['what']) for v in unit_nofile(None).violations]
     if w['kind'] == 'project':
